@@ -63,7 +63,9 @@ func cmdWorker(args []string) int {
 	solver := fs.String("solver", "z3", "z3|z3-new|cvc5")
 	tier := fs.String("tier", "quick", "")
 	arch := fs.String("arch", "", "GOARCH override")
+	tags := fs.String("tags", "", "extra build tags")
 	fs.Parse(args)
+	buildTags = *tags
 	if *arch != "" {
 		targetArch = *arch
 	}
@@ -298,6 +300,9 @@ func cmdCheck(args []string) int {
 				useSolver = j.h.Solver
 			}
 			wargs := []string{"worker", "--pkg", j.h.PkgDir, "--harness", j.h.Name, "--out", j.out, "--solver", useSolver, "--tier", *tier}
+			if j.h.Tags != "" {
+				wargs = append(wargs, "--tags", j.h.Tags)
+			}
 			if strings.Contains(j.h.Bounds, "GOARCH=arm64") {
 				wargs = append(wargs, "--arch", "arm64")
 			}
@@ -460,7 +465,12 @@ func TestVerifReplay(t *testing.T) { verifReplayRun(t, %q, %s) }
 	ovb, _ := json.Marshal(map[string]interface{}{"Replace": repl})
 	ovf := filepath.Join(dir, "overlay.json")
 	os.WriteFile(ovf, ovb, 0644)
-	cmd := exec.Command("go", "test", "-vet=off", "-count=1", "-timeout", "120s", "-overlay", ovf, "-run", "^TestVerifReplay$", "./"+h.PkgDir)
+	targs := []string{"test", "-vet=off", "-count=1", "-timeout", "120s", "-overlay", ovf, "-run", "^TestVerifReplay$"}
+	if h.Tags != "" {
+		targs = append(targs, "-tags", h.Tags)
+	}
+	targs = append(targs, "./"+h.PkgDir)
+	cmd := exec.Command("go", targs...)
 	cmd.Dir = repoDir
 	cmd.Env = append(goEnv(), "VERIF_MODEL="+modelPath, "GOARCH=")
 	outB, _ := cmd.CombinedOutput()
